@@ -34,6 +34,18 @@ func TestMain(m *testing.M) {
 	glue.SilenceKlog()
 	glue.UserFields()
 	if rp := ev.LoadReplay(); rp != nil {
+		switch rp.Phase {
+		case "address_forms":
+			ev.RunReplay(rp, runAddressForm)
+		case "bool_decode_bytes":
+			ev.RunReplay(rp, func(b int) *ev.Failure {
+				el, err := entities.DecodeAndCreateInfoElementWithValue(glue.IE(glue.UserField(ref.TBool)), []byte{byte(b)})
+				if err == nil && ((b == 1 && !el.GetBooleanValue()) || (b == 2 && el.GetBooleanValue())) {
+					return ev.Failf("boolean byte %d decoded to %v", b, el.GetBooleanValue())
+				}
+				return nil
+			})
+		}
 		ev.RunReplay(rp, runCase)
 	}
 	rec = ev.New("C15", "cases are (user-registered element of each of the 18 supported types incl. fixed-length octet arrays 1..100, value, position among sentinel fields); exhaustive for 8/16-bit types and booleans, every string/octet length 0..300 and 65520..65535, boundary+random beyond; non-trivial = the encoding has a non-zero byte or a length prefix; distinct by hash(element, value, position)",
@@ -183,6 +195,41 @@ func runCase(c Case) *ev.Failure {
 	return nil
 }
 
+// runAddressForm checks one (address element, in-memory form of an IPv4 address) pair.
+func runAddressForm(c Case) *ev.Failure {
+	wire := c.V.B
+	if c.F.Type == ref.TIPv4 && len(wire) == 16 {
+		wire = wire[12:]
+	}
+	if c.F.Type == ref.TIPv6 && len(wire) == 4 {
+		wire = append([]byte{0, 0, 0, 0, 0, 0, 0, 0, 0, 0, 0xFF, 0xFF}, wire...)
+	}
+	fields := layout(c)
+	els := make([]entities.InfoElementWithValue, len(fields))
+	for i, f := range fields {
+		els[i] = glue.Element(glue.IE(f), f.Type, values(c, 0xA5, 0x5A)[i])
+	}
+	set := entities.NewSet(false)
+	set.PrepareSet(entities.Data, 256)
+	if err := set.AddRecord(els, 256); err != nil {
+		return nil // refusing the value is allowed (C09 judges that); silently altering it is not
+	}
+	want := ref.EncodeDataRecord(nil, fields, values(Case{F: c.F, V: ref.Value{B: wire}, Pos: c.Pos}, 0xA5, 0x5A))
+	r := set.GetRecords()[0]
+	if got := r.GetBuffer(); !bytes.Equal(got, want) || r.GetRecordLength() != len(want) || els[c.Pos].GetLength() != len(wire) {
+		return ev.Failf("%s element holding the %d-byte form of an IPv4 address: record % x (reported length %d, element length %d), want % x", c.F.Type, len(c.V.B), got, r.GetRecordLength(), els[c.Pos].GetLength(), want)
+	}
+	return nil
+}
+
+func seq(a, b int) []int {
+	var out []int
+	for i := a; i <= b; i++ {
+		out = append(out, i)
+	}
+	return out
+}
+
 func firstDiff(a, b []byte) int {
 	for i := 0; i < len(a) && i < len(b); i++ {
 		if a[i] != b[i] {
@@ -300,10 +347,28 @@ func TestC15(t *testing.T) {
 				}
 			}
 		}
-		for n := 1; n <= 100; n++ {
+		for _, n := range append(seq(1, 100), glue.LongFixedOctets...) {
 			b := bytes.Repeat([]byte{byte(n)}, n)
 			for pos := 0; pos < 3; pos++ {
 				if !check(t, "lengths", Case{F: glue.UserFixedOctets(n), V: ref.Value{B: b}, Pos: pos}, "fixed_octets_enum") {
+					return
+				}
+			}
+		}
+	})
+	// Phase 3b: the two in-memory forms of an IPv4 address (4 and 16 bytes) in both address
+	// elements: an ipv4Address element encodes the 4 raw bytes, an ipv6Address element the 16 bytes
+	// of the IPv4-mapped form (net.IP semantics: the two forms are the same address).
+	t.Run("address_forms", func(t *testing.T) {
+		v4 := []byte{192, 0, 2, 33}
+		mapped := append([]byte{0, 0, 0, 0, 0, 0, 0, 0, 0, 0, 0xFF, 0xFF}, v4...)
+		for pos := 0; pos < 3; pos++ {
+			for _, c := range []Case{{F: glue.UserField(ref.TIPv4), V: ref.Value{B: v4}, Pos: pos}, {F: glue.UserField(ref.TIPv4), V: ref.Value{B: mapped}, Pos: pos},
+				{F: glue.UserField(ref.TIPv6), V: ref.Value{B: mapped}, Pos: pos}, {F: glue.UserField(ref.TIPv6), V: ref.Value{B: v4}, Pos: pos}} {
+				record(c, "address_forms")
+				if f := runAddressForm(c); f != nil {
+					rec.Violation("address_forms", c, f.Msg)
+					t.Errorf("%s", f.Msg)
 					return
 				}
 			}
@@ -314,7 +379,7 @@ func TestC15(t *testing.T) {
 	ev.Rapid(t, rec, "random", rec.Scale(60000, 3000000), func(t *rapid.T) Case {
 		var f ref.Field
 		if rapid.IntRange(0, 9).Draw(t, "fixedoct") == 0 {
-			f = glue.UserFixedOctets(rapid.IntRange(1, 100).Draw(t, "n"))
+			f = glue.UserFixedOctets(rapid.SampledFrom(append(seq(1, 100), glue.LongFixedOctets...)).Draw(t, "n"))
 		} else {
 			f = all[rapid.IntRange(0, int(ref.NumTypes)-1).Draw(t, "type")]
 		}
